@@ -33,11 +33,11 @@ CLAIMS = {
          "Trusted: go/ssa + VTA call graph; jsonpath.GetDoc is the only way a processor reads properties.",
          "DESIGN.md §4 C02"),
  "C12": ("shape rule over every Processor.Process and embedded-driver lookup (go/types AST), private-copy analysis shared with C01, captured-variable lockset (go/cfg)",
-         "Decides structural necessary conditions for ALL loop programs and schedules: (M1) every step that may stand between a mark and a jump, and every lookup of the embedded driver, forwards a signal traveler first, unchanged, on the channel ordinary rows use; (M2) set, increment and the emitting jump write only into travelers whose current element and marks are private copies; (M3) the variables shared by the jump queue's goroutines are accessed under one mutex. Does not decide the termination-detection protocol of JumpMark under all interleavings (a model-checking question), nor loss/duplication during shutdown.",
+         "Decides structural necessary conditions for ALL loop programs and schedules: (M1) every step that may stand between a mark and a jump, and every lookup of the embedded driver, forwards a signal traveler first, unchanged, on the channel ordinary rows use; (M2) set, increment and the emitting jump write only into travelers whose current element and marks are private copies; (M3) the variables shared by the jump queue's goroutines are accessed under one mutex; (M4) a jump queues only signals addressed to its own mark; (M5) the second stage of every lookup step tests IsSignal or builds travelers only with constructors that copy the Signal field. Does not decide the termination-detection protocol of JumpMark under all interleavings (a model-checking question), nor loss/duplication during shutdown.",
          "Trusted: go/types, go/cfg.",
          "DESIGN.md §4 C12"),
  "C17": ("must-lockset over go/cfg for fields of shared objects; captured-variable race rule for goroutine-starting functions (go/types AST + go/cfg)",
-         "Decides the clause 'no data races on shared state' structurally for ALL schedules: (G1) for each struct type shared by concurrently running handlers or step goroutines (table confirmed by reading), every field written after construction is accessed only under a common mutex of the object; (G2) in every request-reachable function that starts goroutines, each local shared with them is accessed before the first go statement, after the join, atomically, or under a common mutex (helper closures called from goroutines are processes of their own). Does not decide linearizability of the final state, races inside storage engines or protobuf internals, or ownership transfer through channels.",
+         "Decides the clause 'no data races on shared state' structurally for ALL schedules: (G1) for each struct type shared by concurrently running handlers or step goroutines (table confirmed by reading), every field written after construction is accessed only under a common mutex of the object; (G2) in every request-reachable function that starts goroutines, each local shared with them is accessed before the first go statement, after the join, atomically, or under a common mutex (helper closures called from goroutines are processes of their own); (G3) goroutines started in a loop use no variable of the loop statement (go.mod language version < 1.22); (G4) a slice sent on a channel is not resliced and reused by the sender. Does not decide linearizability of the final state, races inside storage engines or protobuf internals, or ownership transfer through channels.",
          "Trusted: go/types, go/cfg; every exported method of a shared type can run concurrently with every other; locks are identified by expression text within one type's methods.",
          "DESIGN.md §4 C17"),
  "C05": ("must-pass-through dataflow on per-method specialised CFGs + table totality (go/types, go/cfg)",
@@ -57,7 +57,7 @@ CLAIMS = {
          "Trusted: go/types, go/cfg; a validator that calls strings.Contains*/Index* with the separator on a field is assumed to reject on a match.",
          "DESIGN.md §4 C16"),
  "C09": ("key-codec agreement, encoder/parser width agreement, channel producer typestate (go/types AST + go/cfg)",
-         "Thin structural claim, labelled as such: index key builders/parsers agree component-wise, the parser's fixed width for number terms equals the encoder's output width, no index query fills a bounded channel before returning it, and every index query closes the channel it returns on every path of its producer goroutine. It decides none of the value-level content of the property (index answers = scan of live documents).",
+         "Thin structural claim, labelled as such: index key builders/parsers agree component-wise, every store operation of the index receives a key of the right kind (exact-key operations full keys, prefix deletes and scans separator-terminated prefixes, including builders derived by append), the parser's fixed width for number terms equals the encoder's output width, no index query fills a bounded channel before returning it, and every index query closes the channel it returns on every path of its producer goroutine. It decides none of the value-level content of the property (index answers = scan of live documents).",
          "Trusted: go/types, go/cfg.",
          "DESIGN.md §4 C09"),
  "C15": ("all-exits-non-nil dataflow (go/cfg), call-tree reachability, builder/parser shape comparison (go/types AST)",
@@ -73,11 +73,11 @@ CLAIMS = {
          "Trusted: go/ssa, VTA call graph (sound for static and interface calls in the loaded packages), go/cfg; two named exceptions with reasons in props/c06.go.",
          "DESIGN.md §4 C06"),
  "C18": ("channel typestate (go/cfg), send/count pairing and batch-flush shape rules, captured-variable analysis (go/types AST); reuses must-Touch and the write-filter rule",
-         "Decides structural necessary conditions for ALL element streams: the bulk handler never closes/sends on a closed or nil stream; every send to a loader is paired with one insert-count increment and every validation failure with one error-count increment and no send; the batcher flushes its partial batches after the loop; the embedded BulkAdd touches the timestamp; the per-element write filter enforces before delivering; loader goroutines capture no variable the receive loop reassigns. Does not decide state equality with one-by-one loading.",
+         "Decides structural necessary conditions for ALL element streams: the bulk handler never closes/sends on a closed or nil stream; every send to a loader is paired with one insert-count increment and every validation failure with one error-count increment and no send; the batcher flushes its partial batches after the loop; the embedded BulkAdd touches the timestamp; the per-element write filter enforces before delivering; loader goroutines capture no variable the receive loop reassigns; the batcher never reuses a batch slice it has handed to a writer goroutine. Does not decide state equality with one-by-one loading.",
          "Trusted: go/types, go/cfg.",
          "DESIGN.md §4 C18"),
  "C19": ("dispatch totality, vacuous-guard/counter detection, SSA index guards, ordering-domain evaluation of the histogram membership test (truth table over all weak orderings), shape rules (go/types AST, go/ssa)",
-         "Decides structural necessary conditions for ALL inputs: every Aggregate oneof member has an arm; no guard or size counter in the aggregation code is vacuous; finalisers index nothing without a length guard (empty input); the histogram membership test equals b <= v < b+w on every ordering of (v, b, w), the first bucket is floor(min/w)*w and the loop includes max's bucket; count increments once per row; each aggregation reads only its own channel. Decides none of the numeric content.",
+         "Decides structural necessary conditions for ALL inputs: every Aggregate oneof member has an arm; no guard or size counter in the aggregation code is vacuous; finalisers index nothing without a length guard (empty input); the histogram membership test equals b <= v < b+w on every ordering of (v, b, w), the first bucket is floor(min/w)*w and the loop includes max's bucket; count increments once per row; each aggregation reads only its own channel; aggregation workers started in the loop over aggregations use a per-iteration copy of the loop variable. Decides none of the numeric content.",
          "Trusted: go/types, go/ssa; the ordering-domain evaluator interprets comparison expressions only.",
          "DESIGN.md §4 C19"),
  "C13": ("process-network close-discipline analysis (goroutine literals as processes, channel keys with parameter binding; must-close dataflow over go/cfg)",
